@@ -698,7 +698,11 @@ func genFaults(r *rand.Rand, st *world.State, g string) []world.Fault {
 		case 2, 3:
 			fs = append(fs, world.Fault{Op: "get", T: n})
 		case 4, 5:
-			fs = append(fs, world.Fault{Op: "update", T: n})
+			if r.Intn(3) == 0 { // the write loses a race against another writer (409 Conflict)
+				fs = append(fs, world.Fault{Op: "conflict", T: n})
+			} else {
+				fs = append(fs, world.Fault{Op: "update", T: n})
+			}
 		case 6:
 			fs = append(fs, world.Fault{Op: "delete", T: n})
 		case 7:
